@@ -155,6 +155,7 @@ def _frame(ck, fx):
         last_read = [x for x in items if x[0] == "r"][-1] if items else None
         if last_read and not (L.mentions(ent, last_read[2]) and L.decode_of(ent, last_read[2]) == ("u16", "le")):
             probs.append("the final u16 does not become the entry index")
+        probs += ["constant pool: " + x for x in L.pool_problems(p)]
         # `labels` is a name -> address map by design; every other field is a sequence / index read from the file
         bad = sorted({h for k, v in st[3] if k != "labels" for h in L.REORDERING if L._has_head(v, h)})
         if bad:
@@ -207,7 +208,8 @@ def _notrailing(ck, fx, cg):
                 if p.get("k") in ("Call", "MethodCall"):
                     uses.append(callee_name(p) or p.get("name"))
                     break
-    ck.ob("R4.notrailing", "compile action writes only through the serializer", uses == [A.get("cli.bc.serialize")], loc(b), "uses of the sink: %s" % uses)
+    writing = [u for u in uses if not (u or "").endswith("::flush")]     # flush emits no bytes of its own
+    ck.ob("R4.notrailing", "compile action writes only through the serializer", writing == [A.get("cli.bc.serialize")], loc(b), "uses of the sink: %s" % uses)
     # the file must contain nothing but the layout: the output file is created/truncated when opened
     from . import shared
     n_open = 0
